@@ -16,6 +16,7 @@ import RxModel.Props.Findings
 import RxModel.Props.Clean
 import RxModel.Spec.Enum2
 import RxModel.Spec.Enum3
+import RxModel.Spec.Enum4
 import RxModel.Props.C03b
 import RxModel.Proofs.C03cTree
 import RxModel.Props.C11b
@@ -195,6 +196,7 @@ def wfReport (pr : Prog) (len : Nat) : String :=
   -- the straight-line capture fragment of C03b / C03c (groups and back-references not under a quantifier or inside an
   -- alternative), incl. agreement of the nesting table computed from the pattern text with the tree
   s!"straight={b (C03b.progOK pr.hasBackrefs pr.maxParens pr.op && (match nestingTable pr.pattern with | some tbl => tblOK tbl pr.op 0 | none => false))}," ++
+  s!"clean4={b (cleanProg4 envFast pr.caseBlind pr.multiLine pr.op && clsCanonB pr.op && !pr.hasBackrefs)}," ++
   s!"clean3={b (cleanProg3 envFast pr.caseBlind pr.multiLine pr.op && clsCanonB pr.op && !pr.hasBackrefs)}," ++
   s!"clean2={b (cleanProg2 envFast pr.caseBlind pr.multiLine pr.op && clsCanonB pr.op && !pr.hasBackrefs)}," ++
   s!"clean={b (cleanOp pr.op && !pr.hasBackrefs)},nea={b (C08.noEmptyAtoms pr.op)},cicl={b (!pr.caseBlind || C11b.allClsB (C11b.clsClosedOnB (fun c => c != 304)) pr.op)}"
